@@ -43,8 +43,8 @@ impl Buildinfo {
     /// Get the binary package names
     pub fn binaries(&self) -> Option<Vec<String>> {
         self.0.get("Binary").map(|s| {
-            s.split(' ')
-                .map(|s| s.trim().to_string())
+            s.split_whitespace()
+                .map(|s| s.to_string())
                 .collect::<Vec<String>>()
         })
     }
@@ -180,7 +180,7 @@ impl Buildinfo {
     pub fn build_tainted_by(&self) -> Option<Vec<String>> {
         self.0
             .get("Build-Tainted-By")
-            .map(|s| s.split(' ').map(|s| s.to_string()).collect())
+            .map(|s| s.split_whitespace().map(|s| s.to_string()).collect())
     }
 
     /// Set the build tainted by field list
